@@ -233,7 +233,7 @@ def _replay_quad(img):
 
 
 def case_corr(ctx, shape, padding, content, shifts):
-    """image = reference displaced by s (content stays inside the frame): centroid = array centre + s"""
+    """image = reference displaced by s (content stays inside the frame): centroid = array centre (sample n//2) + s"""
     c = _cm()
     ny, nx = shape
     h, w = content
@@ -249,7 +249,7 @@ def case_corr(ctx, shape, padding, content, shifts):
         if not (0 <= oy + s[0] and oy + s[0] + h <= ny and 0 <= ox + s[1] and ox + s[1] + w <= nx):
             continue
         im[oy + s[0]:oy + s[0] + h, ox + s[1]:ox + s[1] + w] = blob
-        want = numpy.array([Sym(Fr(nx, 2) + s[1]), Sym(Fr(ny, 2) + s[0])], dtype=object)
+        want = numpy.array([Sym(nx // 2 + s[1]), Sym(ny // 2 + s[0])], dtype=object)
         for three_d in (False, True):
             def fn(c_, im=im, ref=ref, three_d=three_d):
                 i2 = cp(im)
@@ -276,7 +276,7 @@ def _replay_corr(shape, padding, blob, off, s, three_d):
     im[off[0] + s[0]:off[0] + s[0] + h, off[1] + s[1]:off[1] + s[1] + w] = blob
     i2 = numpy.array([im, im]) if three_d else im.copy()
     out = c.correlation_centroid(i2, ref.copy(), threshold=0., padding=padding)
-    want = numpy.array([shape[1] / 2. + s[1], shape[0] / 2. + s[0]])
+    want = numpy.array([shape[1] // 2 + s[1], shape[0] // 2 + s[0]])
     bad = _neq(out[:, 0], want)
     return bad, dict(what="correlation centroid is not the array centre plus the displacement", frame=list(shape), padding=padding,
                      blob=blob, shift_yx=list(s), got=out, want=want)
@@ -303,6 +303,10 @@ def build_cases(tier):
     cases.append(("corr/2x2/pad=2", case_corr, dict(shape=(2, 2), padding=2, content=(1, 1), shifts=[(0, 0), (0, 1), (1, 0), (1, 1)])))
     cases.append(("corr/1x2/pad=2", case_corr, dict(shape=(1, 2), padding=2, content=(1, 1), shifts=[(0, 0), (0, 1)])))
     cases.append(("corr/2x1/pad=2", case_corr, dict(shape=(2, 1), padding=2, content=(1, 1), shifts=[(0, 0), (1, 0)])))
+    cases.append(("corr/1x3/pad=1", case_corr, dict(shape=(1, 3), padding=1, content=(1, 1), shifts=[(0, 0), (0, 1), (0, -1)])))
+    cases.append(("corr/3x3/pad=1", case_corr, dict(shape=(3, 3), padding=1, content=(1, 1), shifts=[(0, 0), (0, 1), (1, 0), (-1, -1)])))
+    cases.append(("corr/1x3/pad=2", case_corr, dict(shape=(1, 3), padding=2, content=(1, 1), shifts=[(0, 0), (0, 1), (0, -1)])))
+    cases.append(("corr/3x1/pad=3", case_corr, dict(shape=(3, 1), padding=3, content=(1, 1), shifts=[(0, 0), (1, 0)])))
     cases.append(("corr/4x4/pad=1/pixel", case_corr, dict(shape=(4, 4), padding=1, content=(1, 1), shifts=[(0, 0), (0, 1), (1, 0), (-1, 0), (0, -1)])))
     cases.append(("corr/4x4/pad=1/blob2x2", case_corr, dict(shape=(4, 4), padding=1, content=(2, 2), shifts=[(0, 0), (0, 1), (1, 0), (-1, 0), (0, -1)])))
     if tier == "thorough":
